@@ -45,7 +45,16 @@ pub fn for_each_case<F: FnMut(serde_json::Value)>(path: &str, tag: &str, mut f: 
         if let Some(rest) = line.strip_prefix(&pre) {
             let rest = rest.trim_end();
             let body = rest.strip_suffix("\">>").unwrap_or(rest);
-            let un = body.replace("\\\"", "\"").replace("\\\\", "\\");
+            // TLC prints the JSON text as a TLA+ string: undo that one level of escaping in a single pass
+            let mut un = String::with_capacity(body.len());
+            let mut it = body.chars();
+            while let Some(ch) = it.next() {
+                if ch == '\\' {
+                    match it.next() { Some('n') => un.push('\n'), Some('t') => un.push('\t'), Some(o) => un.push(o), None => {} }
+                } else {
+                    un.push(ch);
+                }
+            }
             match serde_json::from_str::<serde_json::Value>(&un) {
                 Ok(v) => f(v),
                 Err(e) => panic!("bad case line: {} ({})", un, e),
